@@ -2,7 +2,7 @@
    conf_tags (reflection over stgutg.Conf) and wiring_mode1/2 (go/ast over main()) are REGENERATED from the
    current source on every run; documented_keys / documented_mode are the hand-written specification. *)
 From Coq Require Import List String Bool Arith.
-Require Import DriverTypes ConfigDoc Config ConfTags MainWiring ConfigProofs.
+Require Import DriverTypes DriverConv ConfigDoc Config ConfTags MainWiring ConfigProofs Lifecycle ConfigLoops ConfigLoopsProofs.
 Import ListNotations.
 Open Scope string_scope.
 
@@ -29,6 +29,16 @@ Theorem c18_counts_bound_the_loops :
   /\ loop_ok conf_tags wiring_mode1 documented_loop_traffic_mode = true.
 Proof. exact loops_ok. Qed.
 Print Assumptions c18_counts_bound_the_loops.
+
+(* ... and exactly: for EVERY configuration (any integers), the loop that repeats each test-mode procedure runs
+   min(documented keys of that test) times — the regenerated bound is a min-tree over exactly the fields of those keys,
+   no other key limits it (reflective over Gen/MainWiring.v and Gen/ConfTags.v + the generic lemma repetitions_exact) *)
+Theorem c18_test_mode_repetitions :
+  forall (c:cfgmap) proc keys, In (proc, keys) documented_repetitions_test_mode ->
+  exists fs b n, fields_of_keys conf_tags keys = Some fs /\ loop_bound wiring_mode2 proc = Some b /\
+                 eval_bound c b = Some n /\ is_min_of c fs n.
+Proof. exact test_mode_repetitions. Qed.
+Print Assumptions c18_test_mode_repetitions.
 
 (* command line: traffic mode with no argument, test mode with -t only, anything else no mode (for every argv) *)
 Theorem c18_mode_table : forall argv, mode_of_nat (get_mode argv) = documented_mode argv.
